@@ -40,10 +40,11 @@ def _as_float_value(value: float | int | ArrayLike) -> float | NDArray[np.floati
         return float(value)
     arr = np.asarray(value)
     if arr.dtype.kind in "biuf":
-        if arr.dtype != np.float64:
-            arr = arr.astype(np.float64)
         if arr.ndim == 0:
             return float(arr)
+        # always a private float64 copy: the caller may go on writing into the
+        # array it passed (the next scenario), which is not a set()
+        return np.array(arr, dtype=np.float64)
     return arr
 
 
